@@ -426,7 +426,11 @@ impl<'a> Gen<'a> {
                     return ";".into();
                 }
                 let (name, _) = sc.fbs[self.r.below(sc.fbs.len() as u64) as usize].clone();
-                let call = format!("{name}(x := {}, go := {});", self.expr(sc, Ty::DInt, 1), self.expr(sc, Ty::Bool, 1));
+                let call = match self.r.below(6) {
+                    0 => format!("{name}();"),
+                    1 => format!("{name}(x := {});", self.expr(sc, Ty::DInt, 1)),
+                    _ => format!("{name}(x := {}, go := {});", self.expr(sc, Ty::DInt, 1), self.expr(sc, Ty::Bool, 1)),
+                };
                 match sc.vars.iter().find(|v| v.ty == Ty::DInt) {
                     Some(v) => format!("{call} {} := {name}.y;", v.name),
                     None => call,
